@@ -114,6 +114,15 @@ def ev(e, env):
             return a - b
         if isinstance(e.op, ast.Mult):
             return a * b
+        try:
+            if isinstance(e.op, ast.Pow):
+                return a ** b
+            if isinstance(e.op, ast.FloorDiv):
+                return a // b
+            if isinstance(e.op, ast.Div):
+                return a / b
+        except (OverflowError, ZeroDivisionError) as exc:
+            raise Unsupported(f"arithmetic error: {exc}")
         raise Unsupported("binary op")
     if isinstance(e, ast.Compare):
         left = ev(e.left, env)
